@@ -4,14 +4,19 @@
 package main
 
 import (
+	"context"
 	"database/sql"
 	"database/sql/driver"
+	"encoding/json"
 	"errors"
 	"fmt"
 	"reflect"
 	"strconv"
 	"strings"
 	"time"
+
+	"gorm.io/gorm"
+	"gorm.io/gorm/schema"
 )
 
 // ---- custom Scanner/Valuer types ----
@@ -72,6 +77,23 @@ func (c *Cents) Scan(v interface{}) error {
 		c.N = 0
 	default:
 		return fmt.Errorf("Cents: cannot scan %T", v)
+	}
+	return nil
+}
+
+// Pts: struct scanner that names its own gorm data type (GormDataTypeInterface)
+type Pts struct{ N int64 }
+
+func (p Pts) Value() (driver.Value, error) { return p.N, nil }
+func (Pts) GormDataType() string           { return "int" }
+func (p *Pts) Scan(v interface{}) error {
+	switch x := v.(type) {
+	case int64:
+		p.N = x
+	case nil:
+		p.N = 0
+	default:
+		return fmt.Errorf("Pts: cannot scan %T", v)
 	}
 	return nil
 }
@@ -149,17 +171,17 @@ type Nulls struct {
 
 // ---- T4: serializers ----
 type Sers struct {
-	ID    uint64 `gorm:"primaryKey"`
-	Mark  string `gorm:"uniqueIndex"`
-	JL    []string          `gorm:"serializer:json"`
-	JM    map[string]int64  `gorm:"serializer:json"`
-	JS    Payload           `gorm:"serializer:json"`
-	JP    *Payload          `gorm:"serializer:json"`
-	GS    Payload           `gorm:"serializer:gob"`
-	GM    map[string]string `gorm:"serializer:gob"`
-	UT    int64             `gorm:"serializer:unixtime;type:datetime"`
-	UT32  int32             `gorm:"serializer:unixtime;type:datetime"`
-	PUT   *int64            `gorm:"serializer:unixtime;type:datetime"`
+	ID   uint64            `gorm:"primaryKey"`
+	Mark string            `gorm:"uniqueIndex"`
+	JL   []string          `gorm:"serializer:json"`
+	JM   map[string]int64  `gorm:"serializer:json"`
+	JS   Payload           `gorm:"serializer:json"`
+	JP   *Payload          `gorm:"serializer:json"`
+	GS   Payload           `gorm:"serializer:gob"`
+	GM   map[string]string `gorm:"serializer:gob"`
+	UT   int64             `gorm:"serializer:unixtime;type:datetime"`
+	UT32 int32             `gorm:"serializer:unixtime;type:datetime"`
+	PUT  *int64            `gorm:"serializer:unixtime;type:datetime"`
 }
 
 // ---- T5: embedded structs, prefixes, renamed columns ----
@@ -176,38 +198,38 @@ type Deep struct {
 	Inner  Dims `gorm:"embedded;embeddedPrefix:in_"`
 }
 type Embs struct {
-	ID     uint16 `gorm:"primaryKey"`
-	Mark   string `gorm:"uniqueIndex"`
-	Dims          // anonymous, no prefix: columns w, hgt
-	Box    Dims   `gorm:"embedded;embeddedPrefix:box_"`
-	Auth   Author `gorm:"embedded;embeddedPrefix:auth_"`
-	PAuth  *Author `gorm:"embedded;embeddedPrefix:pauth_"`
-	Dp     Deep   `gorm:"embedded;embeddedPrefix:dp_"`
-	Ren    string `gorm:"column:renamed_col"`
+	ID       uint16  `gorm:"primaryKey"`
+	Mark     string  `gorm:"uniqueIndex"`
+	Dims             // anonymous, no prefix: columns w, hgt
+	Box      Dims    `gorm:"embedded;embeddedPrefix:box_"`
+	Auth     Author  `gorm:"embedded;embeddedPrefix:auth_"`
+	PAuth    *Author `gorm:"embedded;embeddedPrefix:pauth_"`
+	Dp       Deep    `gorm:"embedded;embeddedPrefix:dp_"`
+	Ren      string  `gorm:"column:renamed_col"`
 	HTTPCode int32
 }
 
 // ---- T6: defaults and tracked times ----
 type Defs struct {
-	ID      int64  `gorm:"primaryKey"`
-	Mark    string `gorm:"uniqueIndex"`
-	DI      int64  `gorm:"default:7"`
-	DU      uint8  `gorm:"default:200"`
-	DS      string `gorm:"default:'it''s'"`
-	DS2     string `gorm:"default:plain"`
-	DB      bool   `gorm:"default:true"`
-	DF      float64 `gorm:"default:1.5"`
-	GenI    int64  `gorm:"default:(abs(-42))"`
-	GenS    string `gorm:"default:(lower('GEN'))"`
-	NulS    *string `gorm:"default:null"`
+	ID        int64   `gorm:"primaryKey"`
+	Mark      string  `gorm:"uniqueIndex"`
+	DI        int64   `gorm:"default:7"`
+	DU        uint8   `gorm:"default:200"`
+	DS        string  `gorm:"default:'it''s'"`
+	DS2       string  `gorm:"default:plain"`
+	DB        bool    `gorm:"default:true"`
+	DF        float64 `gorm:"default:1.5"`
+	GenI      int64   `gorm:"default:(abs(-42))"`
+	GenS      string  `gorm:"default:(lower('GEN'))"`
+	NulS      *string `gorm:"default:null"`
 	CreatedAt time.Time
 	UpdatedAt time.Time
-	CNano   int64 `gorm:"autoCreateTime:nano"`
-	CMilli  int64 `gorm:"autoCreateTime:milli"`
-	CSec    int64 `gorm:"autoCreateTime"`
-	UNano   int64 `gorm:"autoUpdateTime:nano"`
-	UMilli  uint64 `gorm:"autoUpdateTime:milli"`
-	USec    int32 `gorm:"autoUpdateTime"`
+	CNano     int64  `gorm:"autoCreateTime:nano"`
+	CMilli    int64  `gorm:"autoCreateTime:milli"`
+	CSec      int64  `gorm:"autoCreateTime"`
+	UNano     int64  `gorm:"autoUpdateTime:nano"`
+	UMilli    uint64 `gorm:"autoUpdateTime:milli"`
+	USec      int32  `gorm:"autoUpdateTime"`
 }
 
 // ---- T7: composite primary key without auto-increment ----
@@ -266,10 +288,79 @@ type PTimes struct {
 	N         int64
 }
 
+// ---- T15: gorm.Model (embedded key, tracked times, soft delete) and an embedded struct with an
+// untagged ID field ----
+type Meta struct {
+	ID   int64
+	Note string
+}
+type Modeled struct {
+	gorm.Model
+	Mark  string `gorm:"uniqueIndex"`
+	Inner Meta   `gorm:"embedded;embeddedPrefix:in_"`
+	V     int64
+}
+
+// Enc: a field type that is its own serializer (schema.SerializerInterface); stored as JSON text
+type Enc string
+
+func (e *Enc) Scan(ctx context.Context, field *schema.Field, dst reflect.Value, dbValue interface{}) error {
+	var s string
+	switch v := dbValue.(type) {
+	case nil:
+		*e = ""
+		return nil
+	case string:
+		s = v
+	case []byte:
+		s = string(v)
+	default:
+		return fmt.Errorf("Enc: cannot scan %T", dbValue)
+	}
+	var out string
+	if err := json.Unmarshal([]byte(s), &out); err != nil {
+		return err
+	}
+	*e = Enc(out)
+	return nil
+}
+func (e *Enc) Value(ctx context.Context, field *schema.Field, dst reflect.Value, fieldValue interface{}) (interface{}, error) {
+	var s string
+	switch v := fieldValue.(type) {
+	case Enc:
+		s = string(v)
+	case *Enc:
+		if v != nil {
+			s = string(*v)
+		}
+	}
+	b, err := json.Marshal(s)
+	return string(b), err
+}
+
+// ---- T16: defaults on pointer / custom fields, a time default, precision and type tags, a
+// self-serializing field, unixtime on a pointer to an unsigned integer ----
+type Defs2 struct {
+	ID   uint      `gorm:"primaryKey"`
+	Mark string    `gorm:"uniqueIndex"`
+	PDI  *int64    `gorm:"default:9"`
+	PDS  *string   `gorm:"default:'p'"`
+	PDB  *bool     `gorm:"default:true"`
+	DCe  Cents     `gorm:"default:5"`
+	DT   time.Time `gorm:"default:2021-02-03 04:05:06"`
+	Amt  float64   `gorm:"precision:10;scale:2"`
+	TS   string    `gorm:"type:string;size:40"`
+	TI   int32     `gorm:"type:int"`
+	E    Enc
+	P    Pts
+	PUU  *uint32 `gorm:"serializer:unixtime;type:datetime"`
+	HexV int64   `gorm:"default:0x10"`
+}
+
 // ---- T11: the same struct embedded twice with different prefixes, inner `column:` rename ----
 type Addr struct {
 	City string
-	Zip  string `gorm:"column:postcode"`
+	Zip  string   `gorm:"column:postcode"`
 	Lat  *float64 `gorm:"column:lat"`
 }
 type Twice struct {
@@ -289,7 +380,7 @@ var registry = []struct {
 	{"Ints", reflect.TypeOf(Ints{})}, {"Scalars", reflect.TypeOf(Scalars{})}, {"Nulls", reflect.TypeOf(Nulls{})},
 	{"Sers", reflect.TypeOf(Sers{})}, {"Embs", reflect.TypeOf(Embs{})}, {"Defs", reflect.TypeOf(Defs{})},
 	{"Comp", reflect.TypeOf(Comp{})}, {"Keyed", reflect.TypeOf(Keyed{})}, {"StrKey", reflect.TypeOf(StrKey{})},
-	{"UnixU", reflect.TypeOf(UnixU{})}, {"Twice", reflect.TypeOf(Twice{})}, {"Loc", reflect.TypeOf(Loc{})}, {"Uid", reflect.TypeOf(Uid{})}, {"PTimes", reflect.TypeOf(PTimes{})},
+	{"UnixU", reflect.TypeOf(UnixU{})}, {"Twice", reflect.TypeOf(Twice{})}, {"Loc", reflect.TypeOf(Loc{})}, {"Uid", reflect.TypeOf(Uid{})}, {"PTimes", reflect.TypeOf(PTimes{})}, {"Modeled", reflect.TypeOf(Modeled{})}, {"Defs2", reflect.TypeOf(Defs2{})},
 }
 
 func typeByName(n string) reflect.Type {
